@@ -978,6 +978,32 @@ fn reset_contract() {
     std::mem::forget(sim);
 }
 
+/// C30 (content of the register map): a mapping added before the reset is still there, a default mapping removed
+/// before the reset stays removed.  Concrete keys (SipHash of a symbolic key is out of reach); thorough tier.
+fn stub_new_with_default_map(fl: SimFlags, mcr: MCR) -> Simulator {
+    let mut s = stub_new_with_mcr(fl, mcr);
+    s.ireg_mmap = InternalRegister::default_mmap();
+    s
+}
+#[kani::proof]
+#[kani::stub(std::hash::RandomState::new, stub_random_state)]
+#[kani::stub(Simulator::new_with_mcr, stub_new_with_default_map)]
+#[kani::stub(<DeviceHandler as ExternalDevice>::io_reset, stub_io_reset)]
+#[kani::unwind(17)]
+fn reset_keeps_register_map() {
+    let fl = flags(kani::any(), kani::any(), kani::any());
+    let mut sim = any_sim_with(fl, DeviceHandler::new());
+    // configuration before the reset: PC mapped at xFE10, the default PSR/MCR mappings removed
+    let mut m = HashMap::new();
+    m.insert(0xFE10u16, InternalRegister::PC);
+    sim.ireg_mmap = m;
+    sim.reset();
+    assert!(sim.ireg_mmap.get(&0xFE10).copied() == Some(InternalRegister::PC), "C30.reset: a mapping made before the reset is kept");
+    assert!(sim.ireg_mmap.get(&PSR_ADDR).is_none() && sim.ireg_mmap.get(&MCR_ADDR).is_none(), "C30.reset: a default mapping removed before the reset stays removed");
+    assert!(sim.ireg_mmap.len() == 1, "C30.reset: exactly the mappings configured before the reset");
+    std::mem::forget(sim);
+}
+
 // =================================================================================================
 // C13: run loops with `step` replaced by its contract.
 
@@ -989,6 +1015,8 @@ static mut STEP_TAMPER: bool = false;
 static mut STEP_OUTS: [StepOut; 6] = [StepOut::Ok; 6];
 static mut STEP_CLEAR_MCR: [bool; 6] = [false; 6];
 static mut STEP_BOUND: usize = 0;
+/// frame depth and instruction counter seen at the entry of each step (what the loop's stop condition looked at)
+static mut STEP_PRE: [(u64, u64); 6] = [(0, 0); 6];
 /// Contract stub of `Simulator::step`: an arbitrary outcome; on success the instruction counter may
 /// advance by one (not on an interrupt entry), the frame depth moves by at most one, PC/registers arbitrary;
 /// a program may clear the MCR.  Also checks that nothing touched the machine since the previous step.
@@ -996,6 +1024,7 @@ fn contract_step(s: &mut Simulator) -> Result<(), StepBreak> {
     unsafe {
         if let Some(prev) = STEP_LAST { if !same_scalars(&prev, &scalars(s)) { STEP_TAMPER = true; } }
         let k = STEP_N; STEP_N += 1;
+        if k < 6 { STEP_PRE[k] = (s.frame_stack.len(), s.instructions_run); }
         // bounded stand-in: runs longer than the bound are not explored
         kani::assume(k < STEP_BOUND);
         let out = if kani::any() { StepOut::Ok } else if kani::any() { StepOut::Halt } else { StepOut::Err };
@@ -1046,6 +1075,21 @@ fn run_loop_contract(which: Runner, bound: u64, with_bp: bool) {
     let mut i = 0;
     while (i as u64) < bound {
         if i + 1 < n { assert!(outs[i] == StepOut::Ok && !cleared[i], "C13.stop: no instruction runs after a halt, an error or the MCR being cleared"); }
+        i += 1;
+    }
+    // no instruction runs once the documented stop condition holds at an instruction boundary
+    let pre = unsafe { STEP_PRE };
+    let mut i = 0;
+    while (i as u64) < bound {
+        if i < n {
+            let (d, ic) = pre[i];
+            match which {
+                Runner::Limit => assert!(ic.wrapping_sub(s0.icount) < limit, "C13.limit: no instruction runs once the step limit is reached"),
+                Runner::Over => assert!(i == 0 || d > s0.depth, "C13.over: after the first instruction, step_over continues only while the frame depth is above the starting depth"),
+                Runner::Out => assert!(i == 0 || d >= s0.depth, "C13.out: after the first instruction, step_out continues only while the frame depth is at or above the starting depth"),
+                Runner::Run => {}
+            }
+        }
         i += 1;
     }
     if n > 0 {
